@@ -16,6 +16,7 @@ import (
 	"time"
 
 	"github.com/coredhcp/coredhcp/plugins/allocators"
+	"github.com/coredhcp/coredhcp/plugins/allocators/bitmap"
 )
 
 func init() {
@@ -60,6 +61,7 @@ func genAllocConc(c *ctx) {
 		v6 := c.rng.Intn(2) == 0
 		s := &allocState{}
 		var nblocks int
+		var mk func() allocators.Allocator // another allocator like the one under test, not traced
 		if v6 {
 			cfg := []pool6cfg{{56, 58}, {56, 60}, {60, 66}, {120, 125}, {62, 64}}[c.rng.Intn(5)]
 			base := c.pat128()
@@ -69,6 +71,15 @@ func genAllocConc(c *ctx) {
 				continue
 			}
 			nblocks = 1 << uint(cfg.page-cfg.poolLen)
+			pool := net.IPNet{IP: bigToIP(base), Mask: net.CIDRMask(cfg.poolLen, 128)}
+			page := cfg.page
+			mk = func() allocators.Allocator {
+				a, err := bitmap.NewBitmapAllocator(pool, page)
+				if err != nil {
+					return nil
+				}
+				return a
+			}
 		} else {
 			size := []uint32{4, 16, 64, 65}[c.rng.Intn(4)]
 			start := uint32(c.rng.Int63n(int64(^uint32(0) - size)))
@@ -76,48 +87,53 @@ func genAllocConc(c *ctx) {
 				continue
 			}
 			nblocks = int(size)
+			a0, a1 := u32ip(start), u32ip(start+size-1)
+			mk = func() allocators.Allocator {
+				a, err := bitmap.NewIPv4Allocator(a0, a1)
+				if err != nil {
+					return nil
+				}
+				return a
+			}
 		}
 		noHint := "alloc - 0 0"
 		if !v6 {
 			noHint = "alloc - 32 32"
 		}
 		var held []net.IPNet
-		if c.rng.Intn(3) == 0 && nblocks >= 2 {
+		if c.rng.Intn(2) == 0 && nblocks >= 2 {
 			// the very first calls of a fresh allocator, at once (round 9: a bitmap created lazily outside the lock): the
-			// blocks handed out are pairwise different
+			// blocks handed out are pairwise different. 60 fresh allocators like the one under test, k callers each
 			k := 2 + c.rng.Intn(7)
-			fs := make([]func() string, k)
-			res := make([]net.IPNet, k)
-			errs := make([]error, k)
-			for i := range fs {
-				i := i
-				fs[i] = func() string { res[i], errs[i] = s.a.Allocate(net.IPNet{}); return "done" }
-			}
-			together(fs)
-			seen := map[string]bool{}
-			dup := ""
-			for i := range res {
-				if errs[i] == nil {
-					if seen[res[i].String()] {
-						dup = fmtAllocRes(res[i], nil)[3:]
-					}
-					seen[res[i].String()] = true
-				}
-			}
 			fresh := "ok"
-			if dup != "" {
-				fresh = "dup " + dup + " handed out twice by the first calls of a fresh allocator"
+			for round := 0; round < 60 && fresh == "ok"; round++ {
+				a := mk()
+				if a == nil {
+					break
+				}
+				fs := make([]func() string, k)
+				res := make([]net.IPNet, k)
+				errs := make([]error, k)
+				for i := range fs {
+					i := i
+					fs[i] = func() string { res[i], errs[i] = a.Allocate(net.IPNet{}); return "done" }
+				}
+				for _, st := range together(fs) {
+					if st == "HANG" {
+						fresh = "HANG"
+					}
+				}
+				seen := map[string]bool{}
+				for i := range res {
+					if errs[i] == nil {
+						if seen[res[i].String()] {
+							fresh = fmt.Sprintf("dup %s handed out twice by the first calls of a fresh allocator (round %d)", fmtAllocRes(res[i], nil)[3:], round)
+						}
+						seen[res[i].String()] = true
+					}
+				}
 			}
 			c.emit(fmt.Sprintf("achurn %d 0", k), fresh)
-			// give everything back (a block handed out twice is freed once)
-			for k := range seen {
-				for i := range res {
-					if errs[i] == nil && res[i].String() == k {
-						s.a.Free(res[i])
-						break
-					}
-				}
-			}
 		}
 		// fill up to a random level sequentially
 		fill := c.rng.Intn(nblocks + 1)
